@@ -20,6 +20,43 @@ def sameSite (loc : Str) : Bool :=
   | 47 :: _ => true
   | _ => false
 
+/-! ### an independent yardstick for "a path on the same host" (review S2-a)
+
+How a browser resolves a `Location` value as a reference against an http(s) page (WHATWG URL standard, basic URL parser):
+leading C0-control/space characters are stripped and ASCII tab / LF / CR are removed wherever they occur; then a value that
+begins with `scheme:` is scheme-qualified, a value whose first two characters are each `/` or `\` (a backslash counts as a
+slash for http/https) names another authority (`//host`), and a value with a single leading `/` is a path on the same host.
+This definition does not mention the code's `_is_same_site_path`. -/
+
+def c0OrSpace (c : Nat) : Bool := c ≤ 0x20
+def tabOrNewline (c : Nat) : Bool := c == 9 || c == 10 || c == 13
+
+/-- the text the URL parser actually sees -/
+def browserInput (loc : Str) : Str := (loc.dropWhile c0OrSpace).filter (fun c => !tabOrNewline c)
+
+def isAlpha (c : Nat) : Bool := (65 ≤ c && c ≤ 90) || (97 ≤ c && c ≤ 122)
+def isSchemeChar (c : Nat) : Bool := isAlpha c || (48 ≤ c && c ≤ 57) || c == 43 || c == 45 || c == 46
+
+/-- `ALPHA *( ALPHA / DIGIT / "+" / "-" / "." ) ":"` at the start -/
+def hasScheme (s : Str) : Bool :=
+  match s with
+  | c :: rest => isAlpha c && ((rest.dropWhile isSchemeChar).head? == some 58)
+  | [] => false
+
+def slashLike (c : Nat) : Bool := c == 47 || c == 92
+
+/-- `//host…`, `/\host…`, `\/host…`, `\\host…` -/
+def protocolRelative (s : Str) : Bool :=
+  match s with
+  | a :: b :: _ => slashLike a && slashLike b
+  | _ => false
+
+/-- the reference leaves the site: scheme-qualified or protocol-relative -/
+def offSite (loc : Str) : Bool := hasScheme (browserInput loc) || protocolRelative (browserInput loc)
+
+/-- the Location is a path on the same host: begins with `/` and does not leave the site -/
+def onSameHost (loc : Str) : Bool := (browserInput loc).head? == some 47 && !offSite loc
+
 /-- unreserved characters, `%` and `+` -/
 def encodedChar (c : Nat) : Bool :=
   (48 ≤ c && c ≤ 57) || (65 ≤ c && c ≤ 90) || (97 ≤ c && c ≤ 122)
